@@ -54,9 +54,9 @@ type Result struct {
 type RunOptions struct {
 	// Replay, if non-nil, is the recorded main-phase trace to follow.
 	Replay []string
-	// TraceTail: after the recorded trace is exhausted continue with the default policy
-	// (used by the minimiser) instead of stopping.
-	ContinueDefault bool
+	// Lenient (minimiser): recorded choices that are not enabled are skipped instead of
+	// being a divergence; a task step is matched by task name when its site differs.
+	Lenient bool
 	KeepEvents      bool
 	Profile         bool // record site hits
 }
@@ -163,7 +163,7 @@ func (w *World) run(opt RunOptions, res *Result) {
 	w.phase = "main"
 	switch {
 	case opt.Replay != nil:
-		w.chooser = &replayChooser{trace: opt.Replay}
+		w.chooser = &replayChooser{trace: opt.Replay, lenient: opt.Lenient}
 	case w.Cfg.Strategy == "pct":
 		w.chooser = newPCT(w.rng, w.Cfg.PCTDepth, max(50, w.Cfg.MaxSteps/2))
 	case w.Cfg.Strategy == "sticky":
